@@ -602,7 +602,10 @@ class Interp:
 
     def getattr(self, o, attr, node=None):
         if isinstance(o, Native):
-            return getattr(o, attr)
+            try:
+                return getattr(o, attr)
+            except AttributeError:
+                raise AnalysisError(f"evaluator: the checker-side model {type(o).__name__} has no attribute {attr!r}")
         if isinstance(o, SuperProxy):
             mro = o.obj.cls.repo_mro() if isinstance(o.obj, Obj) and o.obj.cls else []
             after = mro[mro.index(o.cls) + 1:] if o.cls in mro else []
